@@ -16,6 +16,21 @@ theorem hasDerivAt_list_sum {ι : Type} (l : List ι) (f : ι → ℝ → ℝ) (
     simp only [List.map_cons, List.sum_cons]
     exact (h a).add ih
 
+theorem hasDerivAt_list_sum_mem {ι : Type} (l : List ι) (f : ι → ℝ → ℝ) (f' : ι → ℝ) (x : ℝ)
+    (h : ∀ i ∈ l, HasDerivAt (f i) (f' i) x) :
+    HasDerivAt (fun t => (l.map (fun i => f i t)).sum) ((l.map f').sum) x := by
+  induction l with
+  | nil => simpa using hasDerivAt_const x (0 : ℝ)
+  | cons a l ih =>
+    simp only [List.map_cons, List.sum_cons]
+    exact (h a List.mem_cons_self).add (ih (fun i hi => h i (List.mem_cons_of_mem _ hi)))
+
+/-- derivative of a finite sum when the summands are only known to be differentiable for the indices summed over -/
+theorem hasDerivAt_rsum_lt (n : Nat) (f : Nat → ℝ → ℝ) (f' : Nat → ℝ) (x : ℝ)
+    (h : ∀ j, j < n → HasDerivAt (f j) (f' j) x) :
+    HasDerivAt (fun t => rsum n (fun j => f j t)) (rsum n f') x :=
+  hasDerivAt_list_sum_mem (List.range n) f f' x (fun j hj => h j (List.mem_range.mp hj))
+
 theorem hasDerivAt_rsum (n : Nat) (f : Nat → ℝ → ℝ) (f' : Nat → ℝ) (x : ℝ)
     (h : ∀ j, HasDerivAt (f j) (f' j) x) :
     HasDerivAt (fun t => rsum n (fun j => f j t)) (rsum n f') x :=
@@ -49,6 +64,11 @@ theorem rsum_add (n : Nat) (f g : Nat → ℝ) : rsum n (fun j => f j + g j) = r
 
 theorem rsum_mul_left (n : Nat) (c : ℝ) (f : Nat → ℝ) : rsum n (fun j => c * f j) = c * rsum n f :=
   list_sum_map_mul_left _ c f
+
+theorem rsum_sub (n : Nat) (f g : Nat → ℝ) : rsum n (fun j => f j - g j) = rsum n f - rsum n g := by
+  have h := rsum_add n (fun j => f j - g j) g
+  have e : (fun j => (f j - g j) + g j) = f := by funext j; ring
+  rw [e] at h; linarith
 
 theorem dsum_add (d : Dom) (f g : String → Nat → ℝ) :
     dsum d (fun k j => f k j + g k j) = dsum d f + dsum d g := by
